@@ -57,10 +57,17 @@ Theorem week_py_spec : forall y w wd, 1001 <= y <= 9998 -> 1 <= w <= iso_weeks_i
 Proof. exact py_week_spec. Qed.
 Print Assumptions week_py_spec.
 
-Theorem week_py_rejects_impossible : forall y w wd, (w > iso_weeks_in_year y /\ 1 <= w) \/ wd > 7 ->
+(* every impossible week date is refused — week 00 and weekday 0 included (finding week-zero-accepted repaired: lower bounds checked) *)
+Theorem week_py_rejects_impossible : forall y w wd, (w < 1 \/ w > iso_weeks_in_year y) \/ (wd < 1 \/ wd > 7) ->
   py_get_week y w (Some wd) = Raise E_ParserError.
 Proof. exact py_week_reject. Qed.
 Print Assumptions week_py_rejects_impossible.
+
+(* hence, within strptime's year range, a week date is accepted exactly when it exists *)
+Theorem week_py_accepts_iff_valid : forall y w wd, 1001 <= y <= 9998 ->
+  ((exists r, py_get_week y w (Some wd) = Ok r) <-> 1 <= w <= iso_weeks_in_year y /\ 1 <= wd <= 7).
+Proof. exact py_week_accepts_iff. Qed.
+Print Assumptions week_py_accepts_iff_valid.
 
 (* compiled (finding rs-ordinal-month-end repaired): equals date.fromisocalendar for every ISO year >= 1, every week of that year and
    every weekday, month ends and year ends included (before the repair: witness 2021-W13-3) *)
@@ -81,16 +88,23 @@ Theorem week_rs_eq_py : forall y w wd, 1001 <= y <= 9998 -> 1 <= w <= iso_weeks_
 Proof. exact rs_week_eq_py. Qed.
 Print Assumptions week_rs_eq_py.
 
-Theorem week_rs_rejects_impossible : forall y w wd, 1 <= y -> (w > iso_weeks_in_year y /\ 1 <= w) \/ wd > 7 -> rs_iso_to_ymd y w wd = None.
+(* compiled: iso_week / iso_day are u32 (parse_integer), on that domain every impossible week date is refused, week 00 and weekday 0 included *)
+Theorem week_rs_rejects_impossible : forall y w wd, 1 <= y -> 0 <= w -> 0 <= wd -> (w < 1 \/ w > iso_weeks_in_year y) \/ (wd < 1 \/ wd > 7) ->
+  rs_iso_to_ymd y w wd = None.
 Proof. exact rs_week_reject. Qed.
 Print Assumptions week_rs_rejects_impossible.
 
-(* "impossible weeks are rejected" is FALSE of both backends for week 00 and weekday 0 *)
-Theorem week_zero_rejected_refuted :
-  py_get_week 2021 0 (Some 1) = Ok (2020, 12, 28) /\ rs_iso_to_ymd 2021 0 1 = Some (2020, 12, 28) /\
-  py_get_week 2021 1 (Some 0) = Ok (2021, 1, 3) /\ rs_iso_to_ymd 2021 1 0 = Some (2021, 1, 3).
-Proof. exact week_zero_accepted_refuted. Qed.
-Print Assumptions week_zero_rejected_refuted.
+Theorem week_rs_accepts_iff_valid : forall y w wd, 1 <= y -> 0 <= w -> 0 <= wd ->
+  (rs_iso_to_ymd y w wd <> None <-> 1 <= w <= iso_weeks_in_year y /\ 1 <= wd <= 7).
+Proof. exact rs_week_accepts_iff. Qed.
+Print Assumptions week_rs_accepts_iff_valid.
+
+(* the former witnesses of finding week-zero-accepted: 2021-W00-1 and 2021-W01-0 are refused by both backends *)
+Theorem week_zero_rejected :
+  py_get_week 2021 0 (Some 1) = Raise E_ParserError /\ rs_iso_to_ymd 2021 0 1 = None /\
+  py_get_week 2021 1 (Some 0) = Raise E_ParserError /\ rs_iso_to_ymd 2021 1 0 = None.
+Proof. exact week_zero_rejected_witnesses. Qed.
+Print Assumptions week_zero_rejected.
 
 (* outside the property's 1583..9999 range, recorded: the pure-Python week path fails for years below 1000 *)
 Theorem week_py_year_below_1000_rejected :
@@ -175,14 +189,30 @@ Theorem time_T_extended_rs_refuted :
 Proof. exact time_T_ext_witness. Qed.
 Print Assumptions time_T_extended_rs_refuted.
 
-(* a bare six-digit basic time: refused by the compiled parser; the pure-Python one drops a leading zero of the hour
-   ("012345" -> 12:34:05) *)
+(* a bare six-digit basic time (no T) is a time for the pure-Python parser and refused by the compiled one
+   (finding rs-bare-hhmmss-rejected, still open) *)
 Theorem time_bare_hhmmss_refuted :
   rs_parse_iso [50; 51; 53; 57; 53; 57] = Raise E_ValueError /\
-  py_parse_iso [50; 51; 53; 57; 53; 57] = Ok (mkp 3 0 0 0 23 59 59 0 None) /\
-  py_parse_iso [48; 49; 50; 51; 52; 53] = Ok (mkp 3 0 0 0 12 34 5 0 None).
+  py_parse_iso [50; 51; 53; 57; 53; 57] = Ok (mkp 3 0 0 0 23 59 59 0 None).
 Proof. exact time_bare_witness. Qed.
 Print Assumptions time_bare_hhmmss_refuted.
+
+(* finding py-hhmmss-leading-zero REPAIRED (hhmmss = f"{year:04d}{month:02d}"): the pure-Python parser keeps the leading zeros of a bare
+   hhmmss text.  Machine-checked end to end (regex + post-match code) on the former failing inputs "012345" (was 12:34:05), "001530",
+   "000000" (raised) and on the corners 09:59:59, 00:00:01, 10:00:00.
+   Missing for the full statement (forall H M S in range, py_parse_iso (render2 H ++ render2 M ++ render2 S) = that time): the reflection
+   over the 86400 texts evaluates in 7 s (all true) but the Qed of the lemma that instantiates it did not terminate (kernel conversion runs
+   the regex matcher on symbolic digits); the general case is covered by the time-only stream (bare basic times with hours below 10,
+   both against the model and against the value the text was rendered from). *)
+Theorem time_bare_hhmmss_py_partial :
+  py_parse_iso [48; 49; 50; 51; 52; 53] = Ok (mkp 3 0 0 0 1 23 45 0 None) /\
+  py_parse_iso [48; 48; 49; 53; 51; 48] = Ok (mkp 3 0 0 0 0 15 30 0 None) /\
+  py_parse_iso [48; 48; 48; 48; 48; 48] = Ok (mkp 3 0 0 0 0 0 0 0 None) /\
+  py_parse_iso [48; 57; 53; 57; 53; 57] = Ok (mkp 3 0 0 0 9 59 59 0 None) /\
+  py_parse_iso [48; 48; 48; 48; 48; 49] = Ok (mkp 3 0 0 0 0 0 1 0 None) /\
+  py_parse_iso [49; 48; 48; 48; 48; 48] = Ok (mkp 3 0 0 0 10 0 0 0 None).
+Proof. exact py_bare_hhmmss_witnesses. Qed.
+Print Assumptions time_bare_hhmmss_py_partial.
 
 (* ------------------------------------------------------------ pure-Python backend, end to end, for EVERY value (shape invariance) *)
 From PV Require Import Gen.IsoRegex Proofs.RegexShape Proofs.C07PyRound.
